@@ -484,7 +484,7 @@ func c42GenReload(rt *rapid.T, cur []c42CertSpec, curKey string, valid bool) c42
 func TestC42_ReloadSequences(t *testing.T) {
 	p := c42GetPool()
 	l := slog.New(slog.NewTextHandler(io.Discard, nil))
-	vk.Check(t, 2500, func(rt *rapid.T) {
+	vk.Check(t, 4000, func(rt *rapid.T) {
 		init := c42GenReload(rt, nil, "", true)
 		disconnectInvalid := rapid.Bool().Draw(rt, "disconnect_invalid")
 		c := config.NewC(l)
